@@ -139,9 +139,18 @@ func judgeSegmenter(w Witness) (vs []violation, st *histStats) {
 func genUAXHistory(r *gen.RNG, i int) Witness {
 	w := Witness{Object: "uaxsegmenter"}
 	n := 5 + r.Intn(36)
+	var prevInit []rune
 	for len(w.Ops) < n {
 		if len(w.Ops) == 0 || r.Chance(1, 2) {
-			w.Ops = append(w.Ops, Op{K: "init", Text: genMixedText(r, 40)})
+			t := genMixedText(r, 40)
+			if prevInit != nil && r.Chance(1, 3) {
+				// same length, other content: the judge hands every text over in one recycled
+				// buffer, so a Segmenter that recognises "the same slice" keeps stale results
+				t = append([]rune(nil), prevInit...)
+				gen.Shuffle(r, t)
+			}
+			prevInit = t
+			w.Ops = append(w.Ops, Op{K: "init", Text: t})
 			continue
 		}
 		op := Op{K: "iter"}
@@ -219,7 +228,7 @@ func (a uaxRec) diff(b uaxRec) string {
 func judgeUAX(w Witness) (vs []violation, st *histStats) {
 	st = newStats()
 	var reused segmenter.Segmenter
-	var cur []rune
+	var cur, shared []rune
 	inited := false
 	inits := 0
 	var kept []uaxRec // results since the last Init
@@ -240,7 +249,9 @@ func judgeUAX(w Witness) (vs []violation, st *histStats) {
 		case "init":
 			checkKept(i)
 			kept = kept[:0]
-			cur = op.Text
+			// the caller recycles one buffer for all its texts (Init is documented to copy)
+			shared = append(shared[:0], op.Text...)
+			cur = shared
 			pv, where := vrun.Catch(func() { reused.Init(cur) })
 			if pv != nil {
 				pvF, _ := vrun.Catch(func() { (&segmenter.Segmenter{}).Init(cur) })
